@@ -53,6 +53,8 @@ func (t *Term) Key() string {
 	}
 	var sb strings.Builder
 	switch t.Op {
+	case "raw":
+		sb.WriteString("raw:" + t.Str)
 	case "int":
 		sb.WriteString("#" + t.Int.String())
 	case "str":
@@ -578,6 +580,8 @@ func (p *smtPrinter) print(t *Term) string {
 			parts = append(parts, p.print(a))
 		}
 		return "(" + strings.Join(parts, " ") + ")"
+	case "raw":
+		return t.Str
 	case "constarr":
 		return "((as const " + t.Sort.String() + ") " + p.print(t.Args[0]) + ")"
 	case "forall", "exists":
